@@ -284,15 +284,16 @@ func (c *Channel) Invoke(ctx context.Context, method string, req, resp interface
 			} else {
 				verifPoint(ctx, "unary.client.afterRead", r.String())
 			}
+			if err := ctx.Err(); err != nil {
+				// Once the context is done the server goroutine may have
+				// dropped frames (the headers, the response, the trailers,
+				// the error) instead of sending them, so what we have seen,
+				// including this frame, is not known to be the complete
+				// outcome. (Same re-check as in readMessage.)
+				return internal.TranslateContextError(err)
+			}
 			if !ok {
 				// no more messages
-				if err := ctx.Err(); err != nil {
-					// Once the context is done the server goroutine may have
-					// dropped frames (the response, the trailers, the error)
-					// instead of sending them, so what we have seen is not
-					// known to be the complete outcome.
-					return internal.TranslateContextError(err)
-				}
 				if !gotResponse {
 					return io.EOF
 				}
